@@ -428,7 +428,7 @@ func runCheck(id, tier string) int {
 	var mu sync.Mutex
 	var harnessErr []string
 	next := 0
-	deadline := t0.Add(time.Duration(b.WallS) * time.Second)
+	deadline := time.Now().Add(time.Duration(b.WallS) * time.Second) // the budget starts after the build
 	var wg sync.WaitGroup
 	for w := 0; w < workers; w++ {
 		wg.Add(1)
@@ -528,7 +528,8 @@ func runCheck(id, tier string) int {
 		id, tier, a.runs, len(a.logHashes), len(a.nontrivial), len(a.states), a.checks, sortedCounts(a.faults), wall, buildS, nviol)
 	// A probe the engine declares mandatory that stayed at zero is a harness defect.
 	for _, name := range p.MustProbes {
-		if a.probes[name] == 0 && a.faults[name] == 0 {
+		// (judged only when the batch was big enough for the probe to be expected)
+		if a.probes[name] == 0 && a.faults[name] == 0 && a.runs >= min(b.Runs, 40) {
 			fmt.Fprintf(os.Stderr, "HARNESS: mandatory probe %q never fired in %d runs\n", name, a.runs)
 			if exit == 0 {
 				return 2
